@@ -41,3 +41,32 @@ Proof. constructor; cbn; try lia; try reflexivity; try discriminate. Qed.
 Example C08_production_min_no_realloc :
   hyps (mk_scfg (clamp_threshold 0) false (clamp_chunks 0) (default_capacity (clamp_threshold 0) false)).
 Proof. constructor; cbn; try lia; try reflexivity; try discriminate. Qed.
+
+(* ================= the transcribed Sorter::insert =================
+   n_insert is exactly what Sorter::insert does to the sizes: the buffer bookkeeping, the number of
+   chunks, the ChunkCreator calls (EvCreate events) and the peak number of chunks alive (n after a
+   spill, n + 1 during a chunk merge) of the transcribed sorter state evolve by n_insert; so the bounds
+   hold along every run of the transcribed sorter, whatever the entries and the merge function *)
+From Grenad.proofs Require Import SorterProj.
+
+Theorem C08_projection : forall c mf st k v st', s_insert c mf st k v = Done st' ->
+  n_insert c (proj st) (entry_sz k v) = Done (proj st').
+Proof. exact s_insert_proj. Qed.
+Print Assumptions C08_projection.
+
+Theorem C08_sorter_bounds : forall c mf ins st', hyps c ->
+  Forall (fun e => entry_sz (fst e) (snd e) <= sc_threshold c / 4) ins ->
+  s_inserts c mf (s_new c) ins = Done st' ->
+  let s := proj st' in
+  eb_U (ns_buf s) <= (if sc_realloc c then 2 * sc_threshold c else sc_threshold c) /\
+  ns_peak s <= sc_max_chunks c + 2 /\ ns_chunks s <= ns_creates s /\
+  eb_U (ns_buf s) + 16 * eb_n (ns_buf s) <= eb_L (ns_buf s) /\ eb_L (ns_buf s) mod 16 = 0.
+Proof.
+  intros c mf ins st' Hc Hsz Hrun. cbv zeta.
+  pose proof (s_inserts_proj c mf ins (s_new c) st' Hrun) as Hn. rewrite proj_new in Hn.
+  destruct (n_inserts_inv c (map (fun e => entry_sz (fst e) (snd e)) ins) Hc
+              ltac:(apply Forall_forall; intros x Hx; apply in_map_iff in Hx; destruct Hx as (e & <- & He); rewrite Forall_forall in Hsz; exact (Hsz e He))
+              (n_new c) (inv_init c Hc)) as (s' & Es & Hinv).
+  rewrite Es in Hn. injection Hn as ->. exact (inv_volume c _ Hc Hinv).
+Qed.
+Print Assumptions C08_sorter_bounds.
